@@ -1,1 +1,1 @@
-
+import RallyProps.C15
